@@ -8,6 +8,7 @@ import (
 	"math/big"
 	"runtime"
 	"sync"
+	"sync/atomic"
 	"time"
 
 	multiproof "github.com/crate-crypto/go-ipa"
@@ -22,10 +23,14 @@ import (
 //      the configuration fingerprints and the sensors (watchdog here, race detector around the process) are logged ----
 
 type concProg struct {
-	K     int      `json:"k"`
-	GMP   int      `json:"gomaxprocs"`
-	Calls []string `json:"calls"`
+	K      int      `json:"k"`
+	GMP    int      `json:"gomaxprocs"` // > 0: runtime.GOMAXPROCS(GMP) around the program
+	EnvGMP int      `json:"envgmp"`     // > 0: the whole driver process was started with GOMAXPROCS=EnvGMP in its environment
+	Calls  []string `json:"calls"`
 }
+
+// a call that blocks forever poisons the process (its goroutines keep whatever they hold): after a hang no further program is run
+var concDead bool
 
 // one call of goroutine g, position i: deterministic in (seed, g, i); returns a digest of everything it returned
 func (d *driver) concCall(cfg *ipa.IPAConfig, op string, g, i int) []int {
@@ -161,6 +166,12 @@ func (d *driver) runConcProgram(w emitter, pid int, line []byte) {
 		panic(fmt.Sprintf("bad conc program %d: %v", pid, err))
 	}
 	cfg := getConf()
+	if concDead {
+		return
+	}
+	if p.EnvGMP > 0 && runtime.GOMAXPROCS(0) != p.EnvGMP {
+		panic(fmt.Sprintf("conc program %d wants a process started with GOMAXPROCS=%d, this one has %d", pid, p.EnvGMP, runtime.GOMAXPROCS(0)))
+	}
 	if p.GMP > 0 {
 		runtime.GOMAXPROCS(p.GMP)
 	}
@@ -179,6 +190,7 @@ func (d *driver) runConcProgram(w emitter, pid int, line []byte) {
 	conc := make([][][]int, K)
 	panics := make([]string, K)
 	var start, done sync.WaitGroup
+	var returned atomic.Int64
 	start.Add(1)
 	done.Add(K)
 	for g := 0; g < K; g++ {
@@ -193,14 +205,18 @@ func (d *driver) runConcProgram(w emitter, pid int, line []byte) {
 			start.Wait()
 			for i := range p.Calls {
 				conc[g][i] = d.concCall(cfg, p.Calls[(i+g)%len(p.Calls)], g, i)
+				returned.Add(1)
 			}
 		}(g)
 	}
-	finished := watchdog(func() { start.Done(); done.Wait() }, 600*time.Second)
+	// watchdog: no call at all returns for 240 s while calls are outstanding (alone, the slowest call takes well under a second;
+	// K goroutines under the race detector on one P stay far below that), or the program exceeds 30 minutes
+	finished := stallWatchdog(func() { start.Done(); done.Wait() }, &returned, 240*time.Second, 1800*time.Second)
 	if !finished {
 		buf := make([]byte, 1<<16)
 		n := runtime.Stack(buf, true)
-		w.emit(ev{"ev": "hang", "prog": pid, "k": K, "gomaxprocs": p.GMP, "stacks": string(buf[:n])})
+		w.emit(ev{"ev": "hang", "prog": pid, "k": K, "gomaxprocs": p.GMP, "envgmp": p.EnvGMP, "returned": int(returned.Load()), "of": K * len(p.Calls), "stacks": string(buf[:n])})
+		concDead = true
 		return
 	}
 	for g := 0; g < K; g++ {
@@ -208,11 +224,34 @@ func (d *driver) runConcProgram(w emitter, pid int, line []byte) {
 			w.emit(ev{"ev": "concpanic", "prog": pid, "g": g, "panic": panics[g]})
 		}
 		for i := range p.Calls {
-			w.emit(ev{"ev": "conc", "prog": pid, "g": g, "i": i, "op": p.Calls[(i+g)%len(p.Calls)], "k": K, "gomaxprocs": p.GMP, "seq": seq[g][i], "conc": conc[g][i]})
+			w.emit(ev{"ev": "conc", "prog": pid, "g": g, "i": i, "op": p.Calls[(i+g)%len(p.Calls)], "k": K, "gomaxprocs": p.GMP, "envgmp": p.EnvGMP, "seq": seq[g][i], "conc": conc[g][i]})
 		}
 	}
 	w.emit(ev{"ev": "fp", "prog": pid, "when": "after", "cfg": fpConfig(cfg), "pkg": fpPackage()})
 	if p.GMP > 0 {
 		runtime.GOMAXPROCS(runtime.NumCPU())
+	}
+}
+
+// stallWatchdog runs f; false when `progress` has not moved for `stall` or f takes longer than `total`
+func stallWatchdog(f func(), progress *atomic.Int64, stall, total time.Duration) bool {
+	done := make(chan struct{})
+	go func() { f(); close(done) }()
+	t0 := time.Now()
+	last, lastAt := progress.Load(), time.Now()
+	tick := time.NewTicker(500 * time.Millisecond)
+	defer tick.Stop()
+	for {
+		select {
+		case <-done:
+			return true
+		case <-tick.C:
+			if v := progress.Load(); v != last {
+				last, lastAt = v, time.Now()
+			}
+			if time.Since(lastAt) > stall || time.Since(t0) > total {
+				return false
+			}
+		}
 	}
 }
